@@ -67,7 +67,13 @@ TNoValue == IsEv("novalue") /\ NoValue(Rec[l].e)
 \* the fork, then the child's) - so the event changes nothing and Draw stays as strict as before
 Fork(e) == e \in EntryPoints /\ e \notin closed /\ UNCHANGED <<seen, first, varies, closed>>
 TFork == IsEv("fork") /\ Fork(Rec[l].e)
-TNext == TDraw \/ TDone \/ TNoValue \/ TFork
+\* the process starts further threads that call the same entry point at the same time, each for the first time in its
+\* thread (whatever a generator initialises lazily per thread is initialised once in each).  As with Fork there is one
+\* history per entry point, not one per thread: the recording lists the threads' values after the event, and a value one
+\* thread returned may not be returned by another
+Spawn(e) == e \in EntryPoints /\ e \notin closed /\ UNCHANGED <<seen, first, varies, closed>>
+TSpawn == IsEv("spawn") /\ Spawn(Rec[l].e)
+TNext == TDraw \/ TDone \/ TNoValue \/ TFork \/ TSpawn
 TSpec == Init /\ [][TNext]_vars
 
 Accepted == LET d == TLCGet("stats").diameter IN
